@@ -3,7 +3,7 @@
 EXTENDS LogStmt
 
 HeadsReal == {"bare", "qualified"}
-HeadsAll == {"bare", "qualified", "unconfigured", "prefix", "suffix", "othermod", "modplus1", "modminus1", "submod", "shortmod", "upper", "crateprefixed", "noliteral", "noargs",
+HeadsAll == {"bare", "qualified", "unconfigured", "prefix", "suffix", "othermod", "modplus1", "modminus1", "unicodeprefix", "unicodemod", "submod", "shortmod", "upper", "crateprefixed", "noliteral", "noargs",
              "linecomment", "blockcomment", "doccomment", "instring", "instringopen", "rawstring", "nestedcomment", "nestedcomment3"}
 TargetsAll == {"none", "plain", "comma", "escquote"}
 TargetsTwo == {"none", "plain"}
@@ -13,12 +13,12 @@ KvFew == {"int", "strsemi", "short", "dbg"}
 KvParseOnly == {"err", "sval", "serde"}
 KvRef == {"ref=7", "ref=0", "ref=max", "ref=07", "ref=x", "ref:?=x", "ref=over", "ref=str", "ref=neg", "ref=hex", "ref=suffixed"}
 KvRefFew == {"ref=7", "ref=x", "ref=over"}
-MsgAll == {"plain", "leadspace", "slashes", "blockcm", "placeholders", "escquote", "unicode", "reflater", "empty",
+MsgAll == {"plain", "leadspace", "endbackslash", "onlybackslash", "slashes", "blockcm", "placeholders", "escquote", "unicode", "reflater", "empty",
            "validref", "validref0", "validrefmax", "bracketnoref", "unicodefirst"}
 MsgFew == {"plain", "validref", "leadspace", "unicodefirst"}
 LayoutsAll == {"tight", "space", "newline", "crlf", "blockcomment", "linecomment", "tabs", "formfeed", "unicodews"}
 ContextsAll == {"linestart", "indent", "brace", "arrow", "return", "letunderscore", "afterstring", "aftermultibyte", "break", "tabindent", "afterstmt", "afterurl",
-                "afterrawstring", "afterrawbackslash", "afterbytechar", "afterlifetime"}
+                "afterrawstring", "afterrawbackslash", "afterbytechar", "afterlifetime", "afterhexchar", "afterunicodechar"}
 DirsAll == {"none", "ignore", "nokvp"}
 BothModes == {"structured", "unstructured"}
 =============================================================================
